@@ -210,6 +210,14 @@ def bstr (b : Bool) : String := if b then "1" else "0"
 
 def specDec (t v : List Face.Ent) : Bool := t.all fun e => v.any fun m => m.name == e.name && m.typ == e.typ
 
+/-- drop the table markers `t:` / `v:` / `iface:` the native driver's syntax carries -/
+def dropMark (l : List String) : List String :=
+  match l with
+  | "t:" :: r => r
+  | "v:" :: r => r
+  | "iface:" :: r => r
+  | l => l
+
 def parseDesc : List String → Option Face.Desc
   | [a, b, c] => do pure { id := (← a.toNat?), closure := b == "1", field0 := (← c.toNat?) }
   | _ => none
@@ -227,16 +235,16 @@ def handle (line : String) : String :=
     | _, _ => "bad-op"
   | "impl" :: toks =>
     let (a, b) := splitBar toks
-    match parseEnts a with
+    match parseEnts (dropMark a) with
     | some t =>
       if b = ["none"] then bstr (Face.implScan t none) ++ " " ++ bstr (Face.newItabOk t none) ++ " " ++ bstr t.isEmpty
-      else match parseEnts b with
+      else match parseEnts (dropMark b) with
         | some v => bstr (Face.implScan t (some v)) ++ " " ++ bstr (Face.newItabOk t (some v)) ++ " " ++ bstr (specDec t v)
         | none => "bad-op"
     | none => "bad-op"
   | "find" :: toks =>
     let (a, b) := splitBar toks
-    match parseEnts a, b with
+    match parseEnts (dropMark a), b with
     | some v, [n, t] =>
       match unhex n, t.toNat? with
       | some n, some t =>
